@@ -113,7 +113,10 @@ class SyntaxLines(Part):
                     m = re.match(r"^[ %s]*" % GUIDE, t)
                     return t[:m.end()].replace(GUIDE, " ") + t[m.end():]
                 got_pairs = [(n, unguide(t).rstrip()) for n, t in got_pairs]
-            wp = strip_trailing_blank(list(want))
+            # only blank lines at the very end of the *code* are optional; blank lines inside a range that ends earlier are part of the selection
+            last_nonblank = max([i for i, l in enumerate(src) if l.strip()] + [-1])
+            wp = [(n, t) for n, t in want if t.strip() or (n - start) <= last_nonblank]
+            wp = want[:len(wp)] if all(a == b for a, b in zip(wp, want)) else strip_trailing_blank(list(want))
             gn = [n for n, _ in got_pairs]
             wn_all = [n for n, _ in want]
             lead = len(code) - len(code.lstrip("\n"))
@@ -172,8 +175,9 @@ class Tracebacks(Part):
     chunk = 60
 
     def strategy(self, tier):
-        return st.builds(lambda lead, filler, depth, pos, nl, tabs, wide: {"lead": lead, "filler": filler, "depth": depth, "pos": pos, "final_newline": nl, "tabs": tabs, "wide": wide},
-                         st.integers(0, 4), st.integers(0, 6), st.integers(1, 3), st.sampled_from(["first", "middle", "last"]), st.booleans(), st.booleans(), st.booleans())
+        return st.builds(lambda lead, filler, depth, pos, nl, tabs, wide, wrap: {"lead": lead, "filler": filler, "depth": depth, "pos": pos, "final_newline": nl, "tabs": tabs, "wide": wide, "wrap": wrap},
+                         st.integers(0, 4), st.integers(0, 6), st.integers(1, 3), st.sampled_from(["first", "middle", "last"]), st.booleans(), st.booleans(), st.booleans(),
+                         st.sampled_from(["none", "none", "finally", "with"]))
 
     def check(self, spec, ctx):
         from rich.console import Console
@@ -207,17 +211,27 @@ class Tracebacks(Part):
             body.append("def %s(v):" % name)
             fill = ["%sv = v + %d" % (ind, k) for k in range(spec["filler"])]
             call = "%sreturn f%d(v)" % (ind, dd + 1) if dd < spec["depth"] - 1 else "%sraise ValueError(%r)" % (ind, msg)
+            wrap = spec.get("wrap", "none")
+            if wrap == "finally":
+                # the frame runs more code (the finally body) after the exception passed through it
+                call = ["%stry:" % ind, ind + call, "%sfinally:" % ind, "%s%sv = 0" % (ind, ind), "%s%sv = v + 1" % (ind, ind)]
+            elif wrap == "with":
+                call = ["%swith _Ctx():" % ind, ind + call, "%sv = 0" % ind]
+            else:
+                call = [call]
             if spec["pos"] == "first":
-                body.extend([call] + fill)
+                body.extend(call + fill)
             elif spec["pos"] == "last":
-                body.extend(fill + [call])
+                body.extend(fill + call)
             else:
                 h = len(fill) // 2
-                body.extend(fill[:h] + [call] + fill[h:])
+                body.extend(fill[:h] + call + fill[h:])
             body.append("")
         if spec["pos"] == "last":
             # the raising function is written last so that its failing line is the last line of the file
             body = body[:-1]
+        if spec.get("wrap") == "with":
+            lines += ["class _Ctx:", "%sdef __enter__(self):" % ind, "%s%sreturn self" % (ind, ind), "%sdef __exit__(self, *exc):" % ind, "%s%sreturn False" % (ind, ind), ""]
         lines += body
         text = "\n".join(lines) + ("\n" if spec["final_newline"] else "")
         path = os.path.join(d, "genmod.py")
